@@ -223,6 +223,9 @@ func (its *jsonPrimitive) getTargetByPaths(paths []string) (jsonType, errors.Ord
 			if err != nil {
 				return nil, errors.DatatypeNoTarget.New(its.common.L(), "invalid path:%v from %v", s, strings.Join(paths, "/"))
 			}
+			if node.(*jsonArray).validateGetPosition(pos) != nil {
+				return nil, errors.DatatypeNoTarget.New(its.common.L(), "invalid position:%v from %v", s, strings.Join(paths, "/"))
+			}
 			node = node.(*jsonArray).getJSONType(pos)
 		}
 
